@@ -13345,21 +13345,50 @@ func extraC19EventSuccessIsFlag(c *Ctx, r *Report) {
 			}
 			n++
 			key := fname(f) + ":event-success"
-			ok2 := false
-			v := st.Val
-			if al, isLd := v.(*ssa.UnOp); isLd && al.Op == token.MUL {
-				if cell, isAl := al.X.(*ssa.Alloc); isAl {
-					stores := cellStores(cell)
-					if len(stores) == 1 {
-						v = stores[0]
+			var negFlag func(v ssa.Value, g *ssa.Function, d int) bool
+			negFlag = func(v ssa.Value, g *ssa.Function, d int) bool {
+				if v == nil || d == 0 {
+					return false
+				}
+				switch x := v.(type) {
+				case *ssa.UnOp:
+					if x.Op == token.NOT {
+						return mentionsField(x.X, pkgHandlers, "proxyRequest", "hadError", 2)
 					}
+					if x.Op == token.MUL {
+						if cell, isAl := x.X.(*ssa.Alloc); isAl {
+							stores := cellStores(cell)
+							if len(stores) == 1 {
+								return negFlag(stores[0], g, d-1)
+							}
+						}
+					}
+				case *ssa.Parameter:
+					// a construction helper (newTranslatorRequestEvent(…, success, …)): every caller passes the negated flag
+					idx := -1
+					for i, p := range g.Params {
+						if p == x {
+							idx = i
+						}
+					}
+					sites, all := 0, true
+					for _, h := range c.Funcs {
+						eachInstr(h, func(hi ssa.Instruction) {
+							cc := getCall(hi)
+							if cc == nil || cc.StaticCallee() != g || idx < 0 || idx >= len(cc.Args) {
+								return
+							}
+							sites++
+							if !negFlag(cc.Args[idx], h, d-1) {
+								all = false
+							}
+						})
+					}
+					return sites > 0 && all
 				}
+				return false
 			}
-			if u, isNot := v.(*ssa.UnOp); isNot && u.Op == token.NOT {
-				if mentionsField(u.X, pkgHandlers, "proxyRequest", "hadError", 2) {
-					ok2 = true
-				}
-			}
+			ok2 := negFlag(st.Val, f, 4)
 			if ok2 {
 				r.OK("C19-R20", key, in.Pos(), "Success = !hadError")
 			} else {
